@@ -253,9 +253,20 @@ def _no_cn(case):
     return c
 
 
+def _typed(case):
+    """the case with cnTemp in the Python type the case asks for (int 0 / float 0.0 / -0.0 / numpy float64)"""
+    t = case.get("cn_type")
+    if not t:
+        return case
+    c = copy.deepcopy(case)
+    v = c["opcond"]["cnTemp"]
+    c["opcond"]["cnTemp"] = int(v) if t == "int" else np.float64(v) if t == "npfloat" else float(v)
+    return c
+
+
 def _impl_pair(case):
     try:
-        a = fu.run_real(case)
+        a = fu.run_real(_typed(case))
         b = fu.run_real(_no_cn(case))
     except Exception as e:
         return {"raise": core.exc_class(e), "stage": "run", "msg": str(e)[:200]}
@@ -570,6 +581,10 @@ def classify(case, impl):
         a = impl["cn"]
         N, k = a["N"], a["kCN_obs"]
         tags.append("unstable-stream" if case.get("unstable") else "stable-stream")
+        if case.get("config"):
+            tags.append("kinetics-off(a=400)")
+        if case.get("cn_type"):
+            tags.append("cnTemp=0 as " + case["cn_type"])
         tags.append("trigger=" + ("never" if k >= N else "last-step" if k == N - 1 else "inside"))
         if k < N:
             sig = a["Xsigma"][k]
@@ -674,8 +689,26 @@ def _pair(rng, big=False):
         holds = [h for h in holds if stop <= h[0] < start]
         cn = start if rng.random() < 0.7 else stop
         t_tot = rng.choice([50 * dt, 200 * dt, (start - stop) / rate + 100])
+    T0 = None
+    cn_type = None
+    if rng.random() < 0.12:
+        # trigger temperature exactly ZERO (as int 0, 0.0, -0.0, numpy float64) with pre-cooled vials that are
+        # still supercooled when the hold at 0 degC ends
+        K = rng.choice([100, 200])
+        k = {"int": rng.choice([0, 10]), "ext": rng.choice([0, 10]), "s0": K}
+        start, stop, rate = 5, -40, rng.choice([0.5, 1.0])
+        holds = [[0, rng.choice([30, 60, 120])]]
+        cn, cn_type = rng.choice([(0, "int"), (0.0, "float"), (-0.0, "float"), (0.0, "npfloat")])
+        T0 = rng.choice([-3, -5, -8])
+        dt = rng.choice([1, 2, 5])
+        unstable = False
+        t_tot = (start - 0) / rate + holds[0][1] + rng.choice([20 * dt, 300])
     t_tot = max(dt, min(t_tot, 1500 * dt))
-    return dict(kind="pair", unstable=unstable, N_vials=shape, k=k, dt=dt, threshold=0.9, seed=rng.randint(0, 10 ** 6),
+    extra = {} if T0 is None else {"T0": T0, "cn_type": cn_type}
+    if rng.random() < 0.12:
+        # kinetics with spontaneous nucleation switched off (kb = 10**-400 == 0.0): only the trigger nucleates
+        extra["config"] = {"kinetics": {"a": 400}}
+    return dict(extra, kind="pair", unstable=unstable, N_vials=shape, k=k, dt=dt, threshold=0.9, seed=rng.randint(0, 10 ** 6),
                 seed_v=rng.randint(0, 10 ** 6), initIce=rng.choice(["indirect", "direct"]),
                 opcond=dict(t_tot=t_tot, start=start, stop=stop, rate=rate, holds=holds or None, cnTemp=cn))
 
